@@ -210,3 +210,38 @@ def stores_to(fnode, target_text):
         elif isinstance(st, ast.AugAssign) and ast.unparse(st.target) == target_text:
             out.append((st, st))
     return out
+
+
+def is_emptiness(text):
+    """does the canonical condition `text` imply that some input collection is empty?
+    atoms: len(X) == 0, len(X) < 1, not len(X), X.size == 0, X.is_empty; `or` needs every disjunct, `and` any conjunct"""
+    try:
+        e = ast.parse(text, mode="eval").body
+    except SyntaxError:
+        return False
+
+    def atom(x):
+        if isinstance(x, ast.Attribute) and x.attr == "is_empty":
+            return True
+        if isinstance(x, ast.UnaryOp) and isinstance(x.op, ast.Not):
+            v = x.operand
+            return isinstance(v, ast.Call) and ast.unparse(v.func) == "len"
+        if isinstance(x, ast.Compare) and len(x.ops) == 1:
+            l, r = ast.unparse(x.left), ast.unparse(x.comparators[0])
+            sized = l.startswith("len(") or l.endswith(".size")
+            if sized and isinstance(x.ops[0], ast.Eq) and r == "0":
+                return True
+            if sized and isinstance(x.ops[0], ast.Lt) and r == "1":
+                return True
+            if sized and isinstance(x.ops[0], ast.LtE) and r == "0":
+                return True
+        return False
+
+    def rec(x):
+        if isinstance(x, ast.BoolOp):
+            if isinstance(x.op, ast.Or):
+                return all(rec(v) for v in x.values)
+            return any(rec(v) for v in x.values)
+        return atom(x)
+
+    return rec(e)
